@@ -214,12 +214,16 @@ class StabilizerCode(metaclass=ABCMeta):
         and n the number of qubits.
         """
         if self._logicals_x is None:
+            # Filled in a local array and stored once complete, so that an
+            # interrupt during the construction leaves nothing half-built.
             logical_ops = self.get_logicals_x()
             k = len(logical_ops)
-            self._logicals_x = np.zeros((k, 2*self.n), dtype='uint8')
+            logicals = np.zeros((k, 2*self.n), dtype='uint8')
 
             for i, logical_op in enumerate(logical_ops):
-                self._logicals_x[i] = self.to_bsf(logical_op)
+                logicals[i] = self.to_bsf(logical_op)
+
+            self._logicals_x = logicals
 
         return self._logicals_x
 
@@ -230,12 +234,16 @@ class StabilizerCode(metaclass=ABCMeta):
         and n the number of qubits.
         """
         if self._logicals_z is None:
+            # Filled in a local array and stored once complete, so that an
+            # interrupt during the construction leaves nothing half-built.
             logical_ops = self.get_logicals_z()
             k = len(logical_ops)
-            self._logicals_z = np.zeros((k, 2*self.n), dtype='uint8')
+            logicals = np.zeros((k, 2*self.n), dtype='uint8')
 
             for i, logical_op in enumerate(logical_ops):
-                self._logicals_z[i] = self.to_bsf(logical_op)
+                logicals[i] = self.to_bsf(logical_op)
+
+            self._logicals_z = logicals
 
         return self._logicals_z
 
@@ -259,8 +267,10 @@ class StabilizerCode(metaclass=ABCMeta):
         """
 
         if bsparse.is_empty(self._stabilizer_matrix):
+            # Assembled in a local matrix and stored once complete, so that an
+            # interrupt during the construction leaves nothing half-built.
             sparse_dict: Dict = dict()
-            self._stabilizer_matrix = dok_matrix(
+            stabilizer_matrix = dok_matrix(
                 (self.n_stabilizers, 2*self.n),
                 dtype='uint8'
             )
@@ -285,9 +295,10 @@ class StabilizerCode(metaclass=ABCMeta):
                             sparse_dict[(i_stab, i_qubit)] = 1
 
             for key, value in sparse_dict.items():
-                self._stabilizer_matrix[key[0], key[1]] = value
-            self._stabilizer_matrix = self._stabilizer_matrix.tocsr()
-            self._stabilizer_matrix.data %= 2
+                stabilizer_matrix[key[0], key[1]] = value
+            stabilizer_matrix = stabilizer_matrix.tocsr()
+            stabilizer_matrix.data %= 2
+            self._stabilizer_matrix = stabilizer_matrix
 
         return self._stabilizer_matrix
 
